@@ -403,6 +403,8 @@ inductive Op
   | repl (i k j l : Nat)                                   -- paths[i].phasepoints[k] = paths[j].phasepoints[l]
   | ext (i j : Nat)                                        -- p.phasepoints = p.phasepoints[:-1] + q.phasepoints
   | del (i k : Nat)                                        -- del paths[i].phasepoints[k]
+  | cpa (i j k : Nat)                                      -- paths[i].append(paths[j].phasepoints[k].copy())
+  | emptyOf (i : Nat) (maxlen : Option Int) (timeOrigin : Int)  -- paths.append(paths[i].empty_path(maxlen=, time_origin=))
 
 structure Machine where
   heap : Heap
@@ -522,6 +524,21 @@ def Machine.step (m : Machine) : Op → Machine
     | some p, some q =>
       { m with paths := m.paths.set i { p with frames := p.frames.dropLast ++ q.frames } }.say "ext"
     | _, _ => m.say "skip"
+  | .cpa i j k =>
+    -- the shooting-point idiom of tis.py: `System.copy()` of one frame, then append
+    match m.paths[i]?, m.paths[j]? with
+    | some p, some q =>
+      match q.frames[k]? with
+      | none => m.say "skip"
+      | some r =>
+        let (h1, r1) := m.heap.copySys r
+        let (p1, ok) := p.append r1
+        { m with heap := h1, paths := m.paths.set i p1 }.say (if ok then "True" else "False")
+    | _, _ => m.say "skip"
+  | .emptyOf i ml t =>
+    match m.paths[i]? with
+    | none => m.say "skip"
+    | some _ => { m with paths := m.paths ++ [Path.empty ml t] }.say "empty"
   | .del i k =>
     match m.paths[i]? with
     | none => m.say "skip"
